@@ -72,6 +72,33 @@ class ProgramData:
     def vid(self, name):
         return self.an.qn_ids.get(self._qn(name))
 
+    def jump_in_handler(self, a, b):
+        """node a is a return/break/continue lexically inside an `except` body of a try statement that has a `finally`
+        body containing node b (the situation in which the pinned cfg.py wires the jump past the finally body — property C05)"""
+        if not hasattr(self, '_par'):
+            self._par = {}
+            for p in ast.walk(self.an.fnode):
+                for c in ast.iter_child_nodes(p):
+                    self._par[id(c)] = p
+        na, nb = self.an.ser.nodes.get(a), self.an.ser.nodes.get(b)
+        if not isinstance(na, (ast.Return, ast.Break, ast.Continue)):
+            return False
+        x = na
+        while x is not None:
+            p = self._par.get(id(x))
+            if isinstance(p, (ast.FunctionDef, ast.Lambda)):
+                return False
+            if isinstance(p, ast.ExceptHandler):
+                t = self._par.get(id(p))
+                if isinstance(t, ast.Try) and t.finalbody:
+                    y = nb
+                    while y is not None:
+                        if any(y is s for s in t.finalbody):
+                            return True
+                        y = self._par.get(id(y))
+            x = p
+        return False
+
 
 def repair(d, steps):
     """insert the silent lambda-expression nodes; returns (new steps, old index -> new index)"""
@@ -118,18 +145,21 @@ class ActView:
             return
         self.steps, self.idx = repair(self.d, act.steps)
         self.nodes = [s['node'] for s in self.steps]
-        # An explicit exception that propagates through a `finally` body (or out of a handler) continues along a route the
-        # CFG does not contain; the properties set the effects of `finally` during propagation aside: the walk ends at the raise.
+        # An explicit exception that propagates through a `finally` body continues along a route the CFG does not contain;
+        # the properties set the effects of `finally` during propagation aside: the walk ends at the raise (the tracer
+        # records where: Act.cut).
         self.cut = len(self.steps)
-        for t in range(len(self.nodes) - 1):
-            if (self.nodes[t], self.nodes[t + 1]) not in self.d['_edges'] and self.d['info'][self.nodes[t]]['kind'] == 'Raise':
-                self.cut = t + 1
-                break
+        if act.cut is not None and act.cut < len(act.steps):
+            self.cut = self.idx[act.cut - 1] + 1
         self.truncated = self.cut < len(self.steps)
         if self.truncated:
             self.steps = self.steps[:self.cut]
             self.nodes = self.nodes[:self.cut]
         self.is_path = all((a, b) in self.d['_edges'] for a, b in zip(self.nodes, self.nodes[1:]))
+        self.nonpath_kind = None
+        if not self.is_path:
+            a, b = next((a, b) for a, b in zip(self.nodes, self.nodes[1:]) if (a, b) not in self.d['_edges'])
+            self.nonpath_kind = 'jump_in_handler_of_try_with_finally' if pd.jump_in_handler(a, b) else 'other'
 
     def lean_steps(self):
         pd = self.pd
